@@ -165,14 +165,14 @@ def merge_or(fs):
 
 def pat_alts(p):
     """alternatives of a pattern, each a tuple of component reprs (1-tuple unless the pattern is a tuple)"""
+    while p.get("k") in ("PRef", "PBox", "PDeref") or (p.get("k") == "PBinding" and p.get("sub")):
+        p = p["pat"] if p.get("k") != "PBinding" else p["sub"]
     if p.get("k") == "POr":
         out = []
         for q in p["pats"]:
             out += pat_alts(q)
         return out
     q = p
-    while q.get("k") in ("PRef", "PBox", "PDeref"):
-        q = q["pat"]
     if q.get("k") == "PTuple":
         # cartesian product of component alternatives (or-patterns nested in tuples)
         comps = [[a[0] if len(a) == 1 else "(" + ",".join(a) + ")" for a in pat_alts(c)] for c in q["pats"]]
